@@ -27,7 +27,7 @@ def plan(tier, seed):
     # meshes graded in space only (tall, thin elements) towards the seam, a corner or a random point, asymmetrically:
     # the situation of an adaptive loop resolving a corner singularity; neighbouring entries are strongly coupled there
     for c in CURVES:
-        for k in ([0, 1, 2, 3, 7] if tier == 'quick' else range(16)):
+        for k in ([0, 1, 2, 3, 7, 11] if tier == 'quick' else range(16)):
             specs.append({'name': 'graded-%s-%d' % (c, k), 'curve': c, 'rseed': seed * 503 + k, 'graded': k, 'blocks': 12 if tier == 'quick' else 40})
     return specs
 
@@ -58,7 +58,7 @@ def graded_mesh(curve, k, rng):
         return best
     if k % 4 == 3:
         # tall and short elements alternating along the curve: uniform space refinement, then every other leaf bisected in time
-        for _ in range(2 + k // 4 % 2):
+        for _ in range(2 + (k // 4) % 3):
             ls.uniform_space()
         for j, e in enumerate(sorted(ls.leaves(), key=lambda e: (e.time_interval, e.space_interval))):
             if j % 2 == 0 and not e.children and e.h_x**2 / (e.h_t / 2) <= 32:
